@@ -639,7 +639,43 @@ func (r *pxRoles) printerEscapeObligations(lexEsc map[rune]rune, escFd *ast.Func
 		var rows []row
 		viaMapRange, viaReplacer := false, false
 		var tableObj types.Object
+		// the function body plus the initialisers of package-level variables it refers to
+		// (a replacer or table hoisted out of the function is the same table)
+		scanNodes := []ast.Node{efd.Body}
 		ast.Inspect(efd.Body, func(n ast.Node) bool {
+			id, ok := n.(*ast.Ident)
+			if !ok {
+				return true
+			}
+			v, ok := info.Uses[id].(*types.Var)
+			if !ok || v.Pkg() == nil || v.Parent() != v.Pkg().Scope() {
+				return true
+			}
+			for _, pk := range c.All {
+				if pk.Types != v.Pkg() {
+					continue
+				}
+				for _, f := range pk.Syntax {
+					ast.Inspect(f, func(m ast.Node) bool {
+						if vs, ok := m.(*ast.ValueSpec); ok {
+							for i, nm := range vs.Names {
+								if pk.TypesInfo.Defs[nm] == v && i < len(vs.Values) {
+									scanNodes = append(scanNodes, vs.Values[i])
+								}
+							}
+						}
+						return true
+					})
+				}
+			}
+			return true
+		})
+		pxScan := func(fn func(n ast.Node) bool) {
+			for _, nd := range scanNodes {
+				ast.Inspect(nd, fn)
+			}
+		}
+		pxScan(func(n ast.Node) bool {
 			switch x := n.(type) {
 			case *ast.CompositeLit:
 				if _, ok := info.Types[x].Type.Underlying().(*types.Map); ok {
